@@ -337,7 +337,12 @@ func (g *Generator) generateWithoutSaving(parents []*theTypeInfo, t reflect.Type
 			if _, ok := g.componentSchemaRefs[typeName]; ok && g.opts.exportComponentSchemas.ExportComponentSchemas {
 				// Check if we have already parsed this component schema ref based on the name of the struct
 				// and use that if so
-				return openapi3.NewSchemaRef(fmt.Sprintf("#/components/schemas/%s", typeName), schema), nil
+				ref := openapi3.NewSchemaRef(fmt.Sprintf("#/components/schemas/%s", typeName), schema)
+				if isNullable {
+					// A nil pointer is encoded as null, and a reference cannot say so itself
+					return openapi3.NewSchemaRef("", &openapi3.Schema{Nullable: true, AllOf: openapi3.SchemaRefs{ref}}), nil
+				}
+				return ref, nil
 			}
 
 			for _, fieldInfo := range typeInfo.Fields {
